@@ -4,7 +4,7 @@ import json, os
 HERE = os.path.dirname(os.path.dirname(os.path.abspath(__file__)))
 
 HOOK_COMMITS = ["2cbbdff", "ac23892"]
-FIX_COMMITS = ["98bc2de", "ed106f3", "491bd24", "dfb98ff", "3df74c4", "b3f789f", "ab23d59", "444235d", "331aeac", "5e37f18", "e1dd2ec", "eba1a61", "907b67f", "fe271db", "5c59d40", "7ce9410", "d76c398", "44bbfd8", "1167486", "47e344c", "b3bcf3e", "c4fef33", "4349523", "033fd31"]
+FIX_COMMITS = ["98bc2de", "ed106f3", "491bd24", "dfb98ff", "3df74c4", "b3f789f", "ab23d59", "444235d", "331aeac", "5e37f18", "e1dd2ec", "eba1a61", "907b67f", "fe271db", "5c59d40", "7ce9410", "d76c398", "44bbfd8", "1167486", "47e344c", "b3bcf3e", "c4fef33", "4349523", "033fd31", "c75fb35", "db1f79e"]
 
 CHECKS = {
  # id: (engine, technique, level text, level note, design ref, has_thorough)
@@ -82,9 +82,13 @@ CHECKS = {
          "DESIGN.md 5/C14", True),
 }
 
+CHECKS["C19"] = ("rsx", "source-level symbolic execution (rsx + z3) of the object-writing operations of s3s-fs (put_object, upload_part, complete_multipart_upload) together with FileSystem::prepare_file_write, FileWriter::done, impl Drop for FileWriter, copy_bytes and ChecksumHasher under a SYMBOLIC FAULT SCHEDULE (which body frame fails, which declared checksum mismatches, at which suspension point the future is dropped, which rejection of the code fires); obligations over the file-system effect trace of every path; z3 (LIA) over every interleaving of two writers' effect traces; every finding confirmed on the real backend by a fault / drop-after-p-polls / concurrent-writer family (replayer)",
+         "for every fault schedule within the bound (<= 2 body frames quick, 3 thorough; one abandonment; all checksum declarations): a write that does not succeed has no effect on the object file and its side files, no temporary file survives any outcome, a successful write is exactly one rename of a temporary file that received exactly the delivered frames in order and was flushed, with every declared checksum matching; for two concurrent writers and every interleaving of their effect traces the object ends as one writer's complete content (temporary names from the atomic counter are distinct)",
+         "the file system is an effect-trace model (rename atomic, no disk faults), the path constructors are terms (C17), a dropped future runs the real Drop code of live FileWriter guards and nothing else; disk faults, process crashes, more than two writers symbolically and sub-await data races are outside the claim; the model is validated on the real backend on every run (about 190 fault runs); six known findings (temporary file leaked when dropped during File::create; object / metadata / internal-info are three files published one after another)",
+         "DESIGN.md 0.8", True)
+
 NA = {
  "C18": "every operation is tokio::fs/std::fs I/O on a real directory tree; the quantified state is the file system, which neither Kani (no FFI/runtime) nor a source-level executor can execute; a model of the file system would verify the model, not the code",
- "C19": "quantifies over fault sequences, future drop points and thread schedules of real I/O; not expressible as a solver query over the real code with the tools present (Kani has no concurrency and no I/O)",
 }
 
 def main():
